@@ -49,5 +49,17 @@ S_Roots == {[cls |-> "BasebandSignal", sh |-> <<4, 2, 1>>, back |-> "dask", ch |
             [cls |-> "DualPolarizationSignal", sh |-> <<2, 2, 2>>, back |-> "dask", ch |-> <<<<2>>, <<1, 1>>, <<1, 1>>>>]}
 S_Ops == {O("time_shift", <<1, 5, -4>>), O("coh_dd", <<3, -2>>), O("to_stokes", <<>>), O("incoh_dd", <<0, 1>>),
           O("ufunc", <<>>), O("rechunk", <<1>>)}
+\* behaviour generation
+G_Ops == {
+  O("tslice", <<1, None, None>>), O("tslice", <<None, None, 2>>), O("tslice", <<1, 3, None>>),
+  O("fslice", <<1, None>>), O("ufunc", <<>>), O("map_blocks", <<>>), O("map_blocks_col", <<>>),
+  O("to_intensity", <<>>), O("stokes_item", <<3>>), O("to_stokes", <<>>), O("to_circular", <<>>),
+  O("time_shift", <<0, 4>>), O("time_shift", <<1, -6>>), O("time_shift", <<1, 5, -4>>),
+  O("freq_shift", <<3>>), O("coh_dd", <<3, -2>>), O("incoh_dd", <<-1, 1>>),
+  O("splitcat", <<1, 2>>), O("splitcat", <<2, 1>>), O("fft_axis", <<1>>), O("fft_axis", <<2>>),
+  O("stft", <<2>>), O("istft", <<2>>), O("rechunk", <<0>>), O("rechunk", <<1>>), O("rechunk", <<2>>),
+  O("to_dask", <<>>)}
+G1_Roots == RootsOf(ShapesUpTo(4, 3, 2), 8)
+G2_Roots == RootsOf({<<2, 2, 2>>, <<4, 2, 1>>, <<3, 3, 1>>, <<4, 1, 2>>}, 4)
 None_ == {}
 =============================================================================
